@@ -48,15 +48,24 @@ CHARGE_OPS = [
     ("tostring_concat", "tostring(i)..x"),
     ("unpack_s", "(string.unpack('s4',P))"),
     ("coroutine", "coroutine.create(function() end)"),
+    # argument lists: 1000 values forwarded through `...` into a frame that stays alive (a suspended coroutine)
+    ("vararg_frame_suspended", "MK(table.unpack(B))", 6048),
+    ("vararg_frame_forwarded", "(function(...) return MK(...) end)(table.unpack(B))", 6048),
 ]
 
 
 def charge_audit(ck, gvh):
     N, K = 3000, 24
     pre = ("local N=%d local s=string.rep('x',N) local S=string.rep('X',N) local B={} for j=1,250 do B[j]=65+j%%20 end "
-           "local P=string.pack('s4',s) local IN,INU={},{} for i=1,%d do IN[i]=s..i INU[i]=S..i end " % (N, K))
+           "local P=string.pack('s4',s) local IN,INU={},{} for i=1,%d do IN[i]=s..i INU[i]=S..i end "
+           "local function MK(...) local co=coroutine.wrap(function(...) coroutine.yield() return select('#',...) end) co(...) return co end "
+           "local function GROW(k, ...) if k==0 then return MK(...) end return GROW(k-1, 0,0,0,0,0,0,0,0,0,0, ...) end " % (N, K))
     cases = []
-    for name, op in CHARGE_OPS:
+    expected = {}
+    for entry in CHARGE_OPS:
+        name, op = entry[0], entry[1]
+        if len(entry) > 2:
+            expected[name] = entry[2]
         for k in (0, K):
             src = pre + ("local t={} local K=%d for i=1,K do local x,X=IN[i],INU[i] t[i]=%s end "
                          "emit(K>0 and (type(t[K])=='string' and #t[K] or 2048) or 0)" % (k, op))
@@ -75,6 +84,8 @@ def charge_audit(ck, gvh):
             ck.violation("charge audit program for %s did not run: %s" % (name, oK["raw"][:200]), {"kind": "harness", "program": src})
             continue
         outlen = int(oK["trace"][0][1:]) if oK["trace"] and oK["trace"][0].startswith("i") else 0
+        if name in expected:
+            outlen = expected[name]
         delta = oK["umem"] - o0["umem"]
         want = int(0.9 * K * outlen)
         ck.cov.setdefault("charge_audit", {})[name] = {"result_len": outlen, "accounted_delta": delta, "kept": K}
@@ -138,7 +149,19 @@ PAIR_SHAPES = [
     ("gsub-function", "local _=('abc'):gsub('%w',function(c) return c..u1 end)"), ("tostring-tonumber", "local _=tonumber(tostring(12.5))"),
     ("pack-unpack", "local _=string.unpack('<i4',string.pack('<i4',7))"), ("select-negative", "local _=select(-1,1,2,3)"),
     ("dump-load", "local _=load(string.dump(f))"),
+    # calls of Go functions with fewer arguments than they declare, with exactly as many, and with more
+    ("go-call-fewer-args", "local _=math.random(6)"), ("go-call-no-args", "local _=math.random()"), ("go-call-all-args", "local _=math.random(1,6)"),
+    ("go-call-type", "local _=type(1)"), ("go-call-rawequal", "local _=rawequal(1,2)"), ("go-call-rawget", "local _=rawget(_ENV,1)"),
+    ("go-call-next", "local _=next(_ENV)"), ("go-call-byte", "local _=('abc'):byte(1)"), ("go-call-len", "local _=('abc'):len()"),
+    ("go-call-floor", "local _=math.floor(1.5)"), ("go-call-tointeger", "local _=math.tointeger(3.0)"), ("go-call-select", "local _=select('#')"),
+    ("go-call-error-missing-arg", "pcall(tostring)"), ("go-call-ipairs-loop", "for i,v in ipairs(_ENV) do end"),
 ]
+# shapes that allocate nothing that outlives the operation: the counter must come back EXACTLY (a positive difference is
+# memory required and never released: the context is eventually killed although it holds nothing)
+PAIR_BALANCED = {"frame-upvalues-and-own-cell", "frame-8-upvalues-2-cells", "recursion", "recursion-own-cells", "index-metamethod",
+                 "call-metamethod", "arith-metamethod", "goto-loop", "go-call-fewer-args", "go-call-no-args", "go-call-all-args", "go-call-type",
+                 "go-call-rawequal", "go-call-rawget", "go-call-next", "go-call-byte", "go-call-len", "go-call-floor", "go-call-tointeger",
+                 "go-call-select"}
 
 
 def pairing_audit(ck, gvh, K=60):
@@ -159,6 +182,15 @@ def pairing_audit(ck, gvh, K=60):
             continue
         d1, d2 = int(tr[0][1:]), int(tr[1][1:])
         table[name] = [d1, d2]
+        if name in PAIR_BALANCED and d1 >= 0 and d2 >= 0 and (d1 > 0 or d2 > 0):
+            k = ck.known_match(lambda kf: kf.get("match", {}).get("class") == "unpaired-require" and kf["match"].get("shape") == name)
+            if k:
+                ck.known_finding(k)
+            else:
+                ck.violation("%s: the accounted memory is %d bytes HIGHER after %d completed operations that keep nothing alive "
+                             "(memory is required and never released: unpaired require)" % (name, max(d1, d2), K),
+                             {"kind": "Go!=S", "engine": "lua", "program": src, "operation": call_of(name), "deltas": [d1, d2],
+                              "expected": "both differences = 0 for an operation that allocates nothing outliving it"})
         if d1 < 0 or d2 < 0:
             k = ck.known_match(lambda kf: kf.get("match", {}).get("class") == "unpaired-release" and kf["match"].get("shape") == name)
             if k:
@@ -169,10 +201,156 @@ def pairing_audit(ck, gvh, K=60):
                              {"kind": "Go!=S", "engine": "lua", "program": src, "operation": call_of(name), "deltas": [d1, d2],
                               "expected": "both differences >= 0: ReleaseMem only gives back what the same operation required"})
     ck.cov["pairing_audit"] = table
+    # the same under a SOFT-only memory limit: RequireMem counts (trackMem) but ReleaseMem only looks at the hard limit
+    soft = []
+    for name in ("frame-upvalues-and-own-cell", "recursion", "go-call-all-args"):
+        call = call_of(name)
+        src = (PAIR_SETUP + "local c=runtime.callcontext({stop={memory=1<<40}},function() local pad=string.rep('x',200000) "
+               "local m0=mem() for k=1,%d do %s end local m1=mem() emit(m1-m0) end) emit(c.status)" % (K, call))
+        soft.append((name, src))
+    outs = [parse(l) for l in vlib.run_lines_resilient(gvh, ["lua"], ["s%d %s cpu=%d" % (j, hexs(src), BIG) for j, (_, src) in enumerate(soft)], per_case_timeout=30)]
+    for (name, src), o in zip(soft, outs):
+        ck.case("pairing-soft:" + name, True)
+        ck.count("pairing-audit-soft-only")
+        tr = (o.get("trace") or [""])[0].split(",")
+        if o["status"] != "ok" or not tr[0].startswith("i"):
+            ck.violation("soft-limit pairing program for %s did not run: %s" % (name, o["raw"][:300]), {"kind": "harness", "program": src})
+            continue
+        d = int(tr[0][1:])
+        table["soft-only:" + name] = [d]
+        if d != 0:
+            k = ck.known_match(lambda kf: kf.get("match", {}).get("class") == "soft-only-memory-limit-never-released")
+            if k:
+                ck.known_finding(k)
+            else:
+                ck.violation("%s under a soft-only memory limit: the accounted memory moved by %d bytes over %d completed operations that keep nothing "
+                             "alive (require and release are not paired)" % (name, d, K),
+                             {"kind": "Go!=S", "engine": "lua", "program": src, "operation": call, "delta": d})
 
 
 def call_of(name):
     return dict(PAIR_SHAPES).get(name, "")
+
+
+# ---------------------------------------------------------------------------------------------------
+# the same threshold for a memory limit set INSIDE a limited context, whatever the parent holds: the child's limit is
+# min(L, what the parent has left), never "L minus what the parent uses" (C07_child_budget)
+NEST_BODIES = [
+    "local t={} for i=1,200 do t[i]=('k'):rep(20)..i end emit(#t)",
+    "local s='' for i=1,300 do s=s..'xy' end emit(#s)",
+    "local t={} for i=1,60 do t[i]={i,i+1,tostring(i)} end emit(#t)",
+    "local co=coroutine.wrap(function() for i=1,30 do coroutine.yield(('z'):rep(i)) end end) local n=0 for i=1,30 do n=n+#co() end emit(n)",
+    "local function f(n) if n==0 then return 0 end local x={n} return #x+f(n-1) end emit(f(80))",
+    "emit(#table.concat({('a'):rep(5000),('b'):rep(5000)}))",
+]
+
+
+def nested_limit_stage(ck, gvh, tier):
+    OUTER = 1 << 31
+    bodies = NEST_BODIES if tier != "quick" else [NEST_BODIES[(ck.seed + i) % len(NEST_BODIES)] for i in range(3)]
+
+    def src(body, P, L):
+        return ("local keep=string.rep('p',%d) local c=runtime.callcontext({kill={memory=%d}},function() %s end) emit('inner',c.status) emit(#keep)" % (P, L, body))
+
+    def status(lines):
+        outs = [parse(l) for l in vlib.run_lines_resilient(gvh, ["lua"], lines, per_case_timeout=30)]
+        res = []
+        for o in outs:
+            evs = [e.split(",") for e in o.get("trace", [])]
+            inner = [e for e in evs if e and e[0] == "s" + "inner".encode().hex()]
+            res.append((bytes.fromhex(inner[-1][1][1:]).decode() if inner and o["status"] == "ok" else o["status"] + "!", o))
+        return res
+
+    nruns = 0
+    for body in bodies:
+        lo, hi = 1, 1 << 26          # lo: killed, hi: done (checked below)
+        st = status(["n %s cpu=%d mem=%d" % (hexs(src(body, 0, hi)), BIG, OUTER)])[0][0]
+        if st != "done":
+            ck.violation("nested memory baseline did not complete: %s" % st, {"kind": "harness", "program": src(body, 0, hi)})
+            continue
+        while hi - lo > 1:
+            mid = (lo + hi) // 2
+            st = status(["n %s cpu=%d mem=%d" % (hexs(src(body, 0, mid)), BIG, OUTER)])[0][0]
+            nruns += 1
+            if st == "done":
+                hi = mid
+            else:
+                lo = mid
+        T = hi
+        cases = [(P, L) for P in (1000, T - 1, T, T + 1, 5 * T) for L in (T - 1, T)]
+        res = status(["n%d %s cpu=%d mem=%d" % (i, hexs(src(body, P, L)), BIG, OUTER) for i, (P, L) in enumerate(cases)])
+        for (P, L), (st, o) in zip(cases, res):
+            nruns += 1
+            ck.case("nested-mem:%s@L=%d,P=%d" % (body, L, P), True)
+            ck.count("nested-mem")
+            want = "done" if L >= T else "killed"
+            if st != want:
+                ck.violation("nested memory limit: the inner computation needs a limit of %d when its parent holds nothing; with the parent holding %d bytes "
+                             "and an inner limit of %d its status is %s, expected %s" % (T, P, L, st, want),
+                             {"kind": "Go!=S", "engine": "lua", "program": src(body, P, L), "limit_mem": OUTER, "inner_threshold_alone": T,
+                              "parent_holds": P, "inner_limit": L, "limited": o["raw"][:600],
+                              "theorem": "C07_child_budget: the child's limit is min(L, parent's remaining budget)"})
+    ck.cov["nested_memory_limit_runs"] = nruns
+
+
+# ---------------------------------------------------------------------------------------------------
+# Retention audit: "the Go heap growth caused by the context is bounded by a constant times M", looked at from the
+# other side: a program builds a structure and keeps it alive; the LIVE Go heap (MemStats.HeapAlloc after two
+# collections, read by the harness function heapnow()) must not have grown by more than RETENTION_RATIO times what
+# the context was charged, plus a slack.  The shapes cover every kind of value a program can keep: strings, tables
+# (array, hash, nested), closures, coroutines, call frames with locals, argument lists forwarded through `...`.
+RETENTION_RATIO = 14          # measured worst on the unchanged tree: 10.0 (chains of closures / of empty tables: 16 bytes charged per 144-160 held)
+# (no shape suspends a coroutine inside pcall: the main thread would then read the counters of the coroutine's context —
+#  open finding context-stack-shared-by-coroutines, C07)
+RETENTION_SLACK = 1 << 20
+RETENTION_SETUP = "local ctx=runtime.context local function mem() return ctx().used.memory end local B={} for j=1,250 do B[j]=j end "
+RETENTION_SHAPES = [
+    ("vararg-frames", "local hold local function f(d, ...) if d==0 then coroutine.yield() return 0 end return 1+f(d-1, ...) end "
+                      "hold=coroutine.wrap(function() return f(400, table.unpack(B)) end) hold()"),
+    ("vararg-results", "local hold local function g(d, ...) if d==0 then coroutine.yield() return ... end return (function(...) return select('#',...) end)(g(d-1, ...)) end "
+                       "hold=coroutine.wrap(function() return g(300, table.unpack(B)) end) hold()"),
+    ("strings", "local t={} for i=1,20000 do t[i]=('s'):rep(40)..i end KEEP=t"),
+    ("small-tables", "local t={} for i=1,20000 do t[i]={i,i+1} end KEEP=t"),
+    ("hash-tables", "local t={} for i=1,20000 do t['k'..i]=i end KEEP=t"),
+    ("closures", "local t={} for i=1,20000 do local a,b=i,i+1 t[i]=function() return a+b end end KEEP=t"),
+    ("coroutines", "local t={} for i=1,1500 do local co=coroutine.wrap(function() coroutine.yield() end) co() t[i]=co end KEEP=t"),
+    ("deep-recursion", "local hold local function f(d) local a,b,c,e=d,d,d,d if d==0 then coroutine.yield() return 0 end return a+f(d-1) end "
+                       "hold=coroutine.wrap(function() return f(20000) end) hold()"),
+    ("big-string", "KEEP=('x'):rep(4000000)"),
+    ("nested-tables", "local t={} local cur=t for i=1,20000 do cur.n={} cur=cur.n end KEEP=t"),
+    ("packed-varargs", "local t={} for i=1,2000 do t[i]=table.pack(table.unpack(B)) end KEEP=t"),
+    ("string-keys-and-values", "local t={} for i=1,10000 do t[('key'):rep(5)..i]=('v'):rep(30)..i end KEEP=t"),
+    ("upvalue-chains", "local f=function() return 0 end for i=1,20000 do local g=f f=function() return g()+1 end end KEEP=f"),
+    ("metatables", "local t={} for i=1,8000 do t[i]=setmetatable({}, {__index=function() return i end}) end KEEP=t"),
+]
+
+
+def retention_audit(ck, gvh):
+    lines = []
+    for k, (name, body) in enumerate(RETENTION_SHAPES):
+        src = RETENTION_SETUP + "local h0=heapnow() local m0=mem() " + body + " local h1=heapnow() local m1=mem() emit(h1-h0,m1-m0)"
+        lines.append("r%d %s cpu=%d mem=%d heap=1" % (k, hexs(src), BIG, 1 << 40))
+    outs = [parse(l) for l in vlib.run_lines_resilient(gvh, ["lua"], lines, per_case_timeout=90)]
+    table = {}
+    for (name, body), o in zip(RETENTION_SHAPES, outs):
+        ck.case("retention:" + name, True)
+        ck.count("retention-audit")
+        tr = (o.get("trace") or [""])[0].split(",")
+        if o["status"] != "ok" or len(tr) < 2 or not all(x.startswith("i") for x in tr[:2]):
+            ck.violation("retention audit program %s did not run: %s" % (name, o["raw"][:300]), {"kind": "harness", "program": body})
+            continue
+        heap, acc = int(tr[0][1:]), int(tr[1][1:])
+        table[name] = {"live_heap_growth": heap, "accounted": acc, "ratio": round(heap / float(max(acc, 1)), 2)}
+        if heap > RETENTION_RATIO * acc + RETENTION_SLACK:
+            k = ck.known_match(lambda kf: kf.get("match", {}).get("class") == "retained-memory-not-accounted" and kf["match"].get("shape") == name)
+            if k:
+                ck.known_finding(k)
+            else:
+                ck.violation("%s: the program keeps %d bytes of Go heap alive but was charged only %d bytes (ratio %.1f, bound %d): a memory limit M "
+                             "does not bound the heap by a constant times M" % (name, heap, acc, heap / float(max(acc, 1)), RETENTION_RATIO),
+                             {"kind": "Go!=S", "engine": "lua", "program": RETENTION_SETUP + body, "live_heap_growth": heap, "accounted": acc,
+                              "bound": "heap <= %d * accounted + %d" % (RETENTION_RATIO, RETENTION_SLACK)})
+    ck.cov["retention_audit"] = table
 
 
 def run(tier, seed):
@@ -294,10 +472,12 @@ def run(tier, seed):
 
     charge_audit(ck, gvh)
     pairing_audit(ck, gvh)
+    nested_limit_stage(ck, gvh, tier)
+    retention_audit(ck, gvh)
 
     # ------------------------------------------------------------ amplification: charge before allocating
     amp = []
-    exps = (12, 20, 26, 30, 34, 40) if tier == "quick" else tuple(range(10, 41, 2))
+    exps = (12, 24, 33, 40) if tier == "quick" else tuple(range(10, 41, 2))
     limits = (1 << 16, 1 << 20) if tier == "quick" else (1 << 12, 1 << 16, 1 << 20, 1 << 23)
     for name, tmpl in qprogs.amplifiers():
         for e in exps:
